@@ -64,7 +64,7 @@ class Check(PropertyCheck):
                 "non-blank characters, distinct by input")
 
     def inputs(self, n):
-        return list(HOSTILE) + [gen_hostile(self.rng) for _ in range(n)]
+        return list(HOSTILE) + [gen_hostile(self.rng) for _ in range(n)] + [gen.zoo(self.rng) for _ in range(n // 4)]
 
     def correspondence(self):
         dis = []
